@@ -192,8 +192,8 @@ impl Check for C11 {
     }
     fn plan(&self, tier: Tier) -> Plan {
         // case k < ROUNDS*16: enumerated sums (each case covers every 16th sum of one filling round)
-        let rounds = tier.pick(2, 120);
-        let mut p = Plan::new(rounds * 16 + tier.pick(64, 2000), tier.pick(30.0, 480.0));
+        let rounds = tier.pick(32, 3200);
+        let mut p = Plan::new(rounds * 16 + tier.pick(640, 64_000), tier.pick(30.0, 360.0));
         p.mandatory = 16 * 2.min(rounds);
         p
     }
@@ -201,7 +201,7 @@ impl Check for C11 {
         sha::selftest()
     }
     fn run_case(&self, tier: Tier, k: u64, rng: &mut Rng, out: &mut Out) {
-        let rounds = tier.pick(2u64, 120);
+        let rounds = tier.pick(32u64, 3200);
         let _g = FillGuard;
         if k < rounds * 16 {
             let lane = (k % 16) as usize;
@@ -248,7 +248,7 @@ impl Check for C11 {
         }
     }
     fn rule(&self) -> String {
-        "enumeration of every selector-byte sum 0..=1020 (all 728 digest offsets, both sums where a residue has two) x {own packet 1 as client, as server (via the deterministic fill hook); received packet 1 built by the reference, keyed as client -> library server and keyed as server -> library client, digest placed by scheme at-8 and by scheme at-772}, remaining bytes seeded-random, repeated for 2 (quick) / 120 (thorough) fillings; plus digest-less packet 1s (zero version, non-zero version, random, digest keyed for the wrong role) and packets generated with the library's own RNG. Every digest, signature and echo is recomputed with the independent SHA-256/HMAC. distinct = (own/received, role, scheme, offset) combinations observed.".to_string()
+        "enumeration of every selector-byte sum 0..=1020 (all 728 digest offsets, both sums where a residue has two) x {own packet 1 as client, as server (via the deterministic fill hook); received packet 1 built by the reference, keyed as client -> library server and keyed as server -> library client, digest placed by scheme at-8 and by scheme at-772}, remaining bytes seeded-random, repeated for up to 32 (quick) / 3200 (thorough) fillings (the first two always); plus digest-less packet 1s (zero version, non-zero version, random, digest keyed for the wrong role) and packets generated with the library's own RNG. Every digest, signature and echo is recomputed with the independent SHA-256/HMAC. distinct = (own/received, role, scheme, offset) combinations observed.".to_string()
     }
     fn assumptions(&self) -> Vec<String> {
         vec![
